@@ -5,13 +5,20 @@ Correspondence:
    failures) against the counters of the Lean model (nsga2Log / steadyLog, Props/C09.lean);
  * GeneticAlgorithm.generate with scripted children against Runs.generate;
  * Selector.pop_acceptance with recorded random picks against Runs.popAccept;
- * elitism / best-cost monotonicity evaluated on the recorded generations.
+ * elitism / best-cost monotonicity evaluated on the recorded generations;
+ * step by step (stream_steps): real NSGA-II and EpsMOEA runs are recorded (children delivered by the variation
+   operators, offspring returned by generate, every objective call with its outcome, re-rolled vectors, recorded
+   generations with front numbers and crowding distances, acceptance picks) and replayed through the composed run
+   model of Model/Nsga2.lean: every iteration through nsga2Step from the recorded parents, every run through
+   nsga2Run / epsMoeaRun from the initial vectors.  Vectors and costs travel as exact rationals.
 """
 import contextlib
+import fractions
+import math
 import os
 import random
 
-from .common import phi, vec, mat
+from .common import phi, vec, mat, rat, close
 from .c01 import spec_pareto
 
 
@@ -231,6 +238,502 @@ def accept_steps_in_run(ctx, rng, N, G, seed):
     return steps
 
 
+# ----------------------------------------------------------------------------- step-by-step replay (Model/Nsga2.lean)
+
+Fr = fractions.Fraction
+
+
+def step_problem(kind, nparams, nobj, fail_p, seed):
+    """Logging problem: every objective call is recorded as (individual object, vector, outcome kind, costs)."""
+    from artap.problem import Problem
+    frng = random.Random(seed * 7919 + 13)
+
+    class SP(Problem):
+        def set(self, **kw):
+            self.name = "c09s"
+            lo, hi = (0.0, 4.0) if kind == "plateau" else (-1.5, 2.5)
+            self.parameters = [{"name": "x%d" % i, "bounds": [lo, hi]} for i in range(nparams)]
+            crit = ["minimize", "maximize", "minimize"]
+            self.costs = [{"name": "f%d" % j, "criteria": "minimize" if nobj == 1 else crit[j % 3]} for j in range(nobj)]
+            self.calls = []
+
+        def evaluate_inequality_constraints(self, x):
+            if kind == "constrained":
+                return [x[0] - 0.8, -2.5 - sum(x)]
+            return []
+
+        def evaluate(self, ind):
+            v = tuple(float(t) for t in ind.vector)
+            if fail_p and frng.random() < fail_p:
+                k = "t" if frng.random() < 0.5 else "r"
+                self.calls.append((ind, v, k, None))
+                raise (TimeoutError if k == "t" else RuntimeError)("injected")
+            x = ind.vector
+            if kind == "plateau":
+                c = [float(int(x[0])), float(int(4.0 - x[0])) if x[-1] > 1.0 else 4.0, float(int(x[-1]))][:nobj]
+            else:
+                s = sum(x)
+                c = [sum((t - 0.3 * j) ** 2 for t in x) + j * s for j in range(nobj)]
+            self.calls.append((ind, v, "o", list(c)))
+            return c
+
+    return SP()
+
+
+def record_run(cfg):
+    """Run the real algorithm; record what the variation operators delivered, what generate returned, every
+    acceptance pick; the objective log and the recorded generations stay on the problem."""
+    import numpy as np
+    import artap.algorithm_genetic as ga
+    import artap.operators as ops
+    algo, N, G, seed = cfg["algo"], cfg["N"], cfg["G"], cfg["seed"]
+    random.seed(seed)
+    np.random.seed(seed % (2 ** 32))
+    p = step_problem(cfg["kind"], cfg["nparams"], cfg["nobj"], cfg["fail_p"], seed)
+    if algo == "nsga2":
+        from artap.algorithm_NSGAII import NSGAII
+        a = NSGAII(p)
+    else:
+        a = ga.EpsMOEA(p)
+    a.options["max_population_size"] = N
+    a.options["max_population_number"] = G
+    a.options["max_processes"] = 1
+    if cfg.get("lowvar"):
+        a.options["prob_cross"] = 0.3
+        a.options["prob_mutation"] = 0.15
+    gens, accepts, popref = [], [], {}
+    orig_generate = ga.GeneticAlgorithm.generate
+    orig_accept = ops.Selector.pop_acceptance
+    real_choice = random.choice
+
+    def generate(self, parents, *args, **kw):
+        rec = {"parents": list(parents), "children": [], "log_pos": len(p.calls)}
+        mut = getattr(self, "mutator", None)
+        if mut is not None:
+            orig_mut = mut.mutate
+
+            def spy(*a_, **k_):
+                v = orig_mut(*a_, **k_)
+                rec["children"].append([float(t) for t in v])
+                return v
+            mut.mutate = spy
+        try:
+            offs = orig_generate(self, parents, *args, **kw)
+        finally:
+            if mut is not None:
+                del mut.mutate
+        rec["offspring"] = list(offs)
+        gens.append(rec)
+        return offs
+
+    def accept(self, individuals, individual):
+        picks = [0, 0]
+
+        def choice(seq):
+            c = real_choice(seq)
+            if seq and isinstance(seq[0], int):
+                picks[0] = list(seq).index(c)
+            else:
+                picks[1] = [id(o) for o in seq].index(id(c))
+            return c
+        random.choice = choice
+        try:
+            orig_accept(self, individuals, individual)
+        finally:
+            random.choice = real_choice
+        accepts.append((individual, picks))
+        popref["pop"] = individuals
+
+    ga.GeneticAlgorithm.generate = generate
+    ops.Selector.pop_acceptance = accept
+    try:
+        with open(os.devnull, "w") as dn, contextlib.redirect_stdout(dn), contextlib.redirect_stderr(dn):
+            a.run()
+    finally:
+        ga.GeneticAlgorithm.generate = orig_generate
+        ops.Selector.pop_acceptance = orig_accept
+    return {"cfg": cfg, "p": p, "a": a, "gens": gens, "accepts": accepts, "pop": popref.get("pop")}
+
+
+def rvec(v):
+    return ",".join(rat(float(t)) for t in v)
+
+
+def table_of(p):
+    """Pure part of the objective: vector -> costs (and constraint values) for every vector that was ever called."""
+    tab = {}
+    for _, v, k, c in p.calls:
+        if k == "o":
+            tab[v] = c
+        else:
+            tab.setdefault(v, None)
+    ents = []
+    for v, c in tab.items():
+        g = [float(t) for t in p.evaluate_inequality_constraints(list(v))]
+        ents.append("%s:%s:%s" % (rvec(v), rvec(c) if c is not None else "", rvec(g)))
+    return "#".join(ents)
+
+
+def calls_by_object(p):
+    by = {}
+    for ind, v, k, c in p.calls:
+        by.setdefault(id(ind), []).append((v, k))
+    return by
+
+
+def spec_of(by, obj):
+    cs = by.get(id(obj), [])
+    vecs = [v for v, _ in cs] or [tuple(float(t) for t in obj.vector)]
+    return "7:%s:%s" % (",".join(k for _, k in cs), ";".join(rvec(v) for v in vecs))
+
+
+def children_of(rec):
+    ch = rec["children"]
+    if not ch or len(ch) % 2:
+        # the variation operators could not be observed: any children that make generate return these offspring
+        ch = [[float(t) for t in o_vec] for o_vec in rec["first_vecs"]]
+        if len(ch) % 2:
+            ch = ch + [ch[-1]]
+    return ";".join(rvec(v) for v in ch)
+
+
+def signs_of(p):
+    return ",".join(str(int(s)) for s in p.signs)
+
+
+def parse_crowd(t):
+    return math.inf if t == "inf" else float(Fr(t))
+
+
+def prepare(rr):
+    """Derived data of a recorded run shared by the step and run requests."""
+    p, gens = rr["p"], rr["gens"]
+    by = calls_by_object(p)
+    rr["by"] = by
+    rr["table"] = table_of(p)
+    for rec in gens:
+        # vector of every offspring when generate returned it = vector of its first objective call (or its present one)
+        rec["first_vecs"] = [(by[id(o)][0][0] if id(o) in by else tuple(float(t) for t in o.vector)) for o in rec["offspring"]]
+    first = gens[0]["log_pos"] if gens else len(p.calls)
+    init, seen = [], set()
+    for ind, v, k, c in p.calls[:first]:
+        if id(ind) not in seen:
+            seen.add(id(ind))
+            init.append(ind)
+    rr["init"] = init
+    rr["init_vecs"] = [by[id(o)][0][0] for o in init]
+
+
+def nsga2_step_request(rr, it, order=None):
+    """Request line of iteration `it` and the merged positions of the recorded survivors."""
+    cfg, p, rec = rr["cfg"], rr["p"], rr["gens"][it]
+    offs, parents = rec["offspring"], rec["parents"]
+    surv = [i for i in p.individuals if i.population_id == it + 2]
+    pos, used = [], set()
+    for sv in surv:
+        j = next((k for k, o in enumerate(offs) if o is sv), None)
+        if j is None:
+            tv = tuple(sv.vector)
+            j = next((len(offs) + k for k, pr in enumerate(parents)
+                      if tuple(pr.vector) == tv and (len(offs) + k) not in used), None)
+        if j is None:
+            return None, None, surv, ("step-member", "iteration %d: the recorded design %r of generation %d is neither an "
+                                      "offspring of this iteration nor a copy of one of its parents" % (it, list(sv.vector), it + 2))
+        used.add(j)
+        pos.append(j)
+    merged = [tuple(o.vector) for o in offs] + [tuple(pr.vector) for pr in parents]
+    if order is None:
+        kept = {merged[j] for j in pos}
+        last = {}
+        for j, v in enumerate(merged):
+            if v not in kept:
+                last[v] = j
+        order = pos + sorted(last.values())
+    specs = "#".join(spec_of(rr["by"], o) for o in offs)
+    pars = "#".join("%s:%s:%d" % (rvec(pr.vector), rvec(pr.costs), int(pr.costs_signed[-1])) for pr in parents)
+    line = "c09.nsga2step %d|%d|%s|%s|%s|%s|%s|%s" % (cfg["N"], it, signs_of(p), rr["table"], specs, pars,
+                                                     children_of(rec), vec(order))
+    return line, pos, surv, None
+
+
+def worst_key_order(rr, it, pos, fronts, crowds):
+    """set() oracle: survivors first, then of every other design the copy with the worst (front, crowding) key."""
+    rec = rr["gens"][it]
+    merged = [tuple(o.vector) for o in rec["offspring"]] + [tuple(pr.vector) for pr in rec["parents"]]
+    kept = {merged[j] for j in pos}
+    worst = {}
+    for j, v in enumerate(merged):
+        if v in kept:
+            continue
+        kj = (fronts[j], -crowds[j])
+        if v not in worst or kj > worst[v][0]:
+            worst[v] = (kj, j)
+    return pos + sorted(j for _, j in worst.values())
+
+
+def check_step_answer(rr, it, ans, pos, surv, final):
+    """Compare one replayed iteration with the recorded one.  Returns None, a failure (key, what), or
+    ("retry", order) when the set() oracle has to be rebuilt from the model's keys."""
+    cfg, p, gens = rr["cfg"], rr["p"], rr["gens"]
+    rec = gens[it]
+    head = "NSGA-II %s, iteration it=%d: " % (cfg, it)
+    if not ans.startswith("ok"):
+        return ("step-" + ans.split()[0], head + "the real iteration completed, the composed model (nsga2Step) answers %r "
+                "(raise = an exception / a de-duplication that the recorded survivors do not form; uncovered = the model "
+                "evaluates a design the run never evaluated; dry = generate does not return with the recorded children)" % ans)
+    f = ans[2:].split("|")
+    r = [int(t) for t in f[0].split(",") if t.strip()]
+    fronts = [int(t) for t in f[1].split(",")]
+    crowds = [parse_crowd(t) for t in f[2].split(",")]
+    okc, calls = int(f[3]), int(f[4])
+    offv = f[5].split(";") if f[5] else []
+    real_off = [rvec(o.vector) for o in rec["offspring"]]
+    if offv != real_off:
+        return ("step-offspring", head + "generate + evaluation left the offspring vectors %r, the model (Runs.generate on the "
+                "recorded children, then the evaluator model) gives %r" % ([list(o.vector) for o in rec["offspring"]], offv))
+    end = gens[it + 1]["log_pos"] if it + 1 < len(gens) else len(p.calls)
+    seg = p.calls[rec["log_pos"]:end]
+    real_ok = sum(1 for c in seg if c[2] == "o")
+    if real_ok != okc or len(seg) != calls:
+        return ("step-evals", head + "%d successful / %d objective calls were made in this iteration, the model makes %d / %d "
+                "(budget: exactly N = %d successful evaluations per iteration)" % (real_ok, len(seg), okc, calls, cfg["N"]))
+    if r != pos:
+        nmerged = len(fronts)
+        if not final:
+            return ("retry", worst_key_order(rr, it, pos, fronts, crowds))
+        rk = sorted((s.features["front_number"], -s.features["crowding_distance"]) for s in surv)
+        mk = sorted((fronts[j], -crowds[j]) for j in r if j < nmerged)
+        if len(rk) == len(mk) and all(a[0] == b[0] and close(a[1], b[1]) for a, b in zip(rk, mk)):
+            return ("near-tie", None)
+        mv = [list(rec["offspring"][j].vector) if j < len(rec["offspring"]) else list(rec["parents"][j - len(rec["offspring"])].vector)
+              for j in r if j < nmerged]
+        return ("step-survivors", head + "generation %d was recorded as %r (merged positions %r, keys (front, -crowding) %r); "
+                "sorting + crowding + truncation of offspring and parent copies in the model keeps positions %r = %r (keys %r)"
+                % (it + 2, [list(s.vector) for s in surv], pos, rk, r, mv, mk))
+    for sv, j in zip(surv, pos):
+        if sv.features["front_number"] != fronts[j]:
+            return ("step-front", head + "survivor %r carries front number %r, the model's sorting of the merged population "
+                    "gives %d" % (list(sv.vector), sv.features["front_number"], fronts[j]))
+        if not close(float(sv.features["crowding_distance"]), crowds[j]):
+            return ("step-crowding", head + "survivor %r carries crowding distance %r, the model gives %r" % (
+                list(sv.vector), sv.features["crowding_distance"], crowds[j]))
+    return None
+
+
+def nsga2_run_request(rr, orders):
+    cfg, p, gens = rr["cfg"], rr["p"], rr["gens"]
+    N, G = cfg["N"], cfg["G"]
+    specs = ["7::"] * (N + 2 * N * max(G - 1, 0))
+    for i, o in enumerate(rr["init"][:N]):
+        specs[i] = spec_of(rr["by"], o)
+    for it, rec in enumerate(gens):
+        for j, o in enumerate(rec["offspring"][:N]):
+            k = N + 2 * N * it + j
+            if k < len(specs):
+                specs[k] = spec_of(rr["by"], o)
+    steps = "@".join("%s!%s" % (children_of(rec), vec(orders[it])) for it, rec in enumerate(gens))
+    return "c09.nsga2run %d|%d|%s|%s|%s|%s|%s" % (N, G, signs_of(p), rr["table"], "#".join(specs),
+                                                  ";".join(rvec(v) for v in rr["init_vecs"]), steps)
+
+
+def check_nsga2_run_answer(rr, ans):
+    cfg, p = rr["cfg"], rr["p"]
+    head = "NSGA-II %s: " % (cfg,)
+    if not ans.startswith("ok"):
+        return ("run-" + ans.split()[0], head + "the real run completed, the composed model (nsga2Run) answers %r" % ans)
+    f = ans[2:].split("|")
+    evals, calls = int(f[0]), int(f[1])
+    real_ok = sum(1 for c in p.calls if c[2] == "o")
+    if evals != real_ok or calls != len(p.calls):
+        return ("run-evals", head + "%d successful / %d objective calls, the model run makes %d / %d (budget N*G = %d)" % (
+            real_ok, len(p.calls), evals, calls, cfg["N"] * cfg["G"]))
+    recs = [t.split(":") for t in f[2].split(";")] if f[2] else []
+    if len(recs) != len(p.individuals):
+        return ("run-recorded", head + "%d designs were recorded, the model run records %d" % (len(p.individuals), len(recs)))
+    for k, (ind, m) in enumerate(zip(p.individuals, recs)):
+        if str(ind.population_id) != m[0]:
+            return ("run-tag", head + "recorded design #%d carries generation tag %r, the model run tags it %s" % (k, ind.population_id, m[0]))
+        if rvec(ind.vector) != m[1]:
+            return ("run-design", head + "recorded design #%d (generation %r) is %r, the model run records %r there" % (
+                k, ind.population_id, list(ind.vector), [float(Fr(t)) for t in m[1].split(",")]))
+        if ind.features["front_number"] != int(m[2]) or not close(float(ind.features["crowding_distance"]), parse_crowd(m[3])):
+            return ("run-features", head + "recorded design #%d (generation %r) has front number %r / crowding distance %r, the model "
+                    "run %s / %s" % (k, ind.population_id, ind.features["front_number"], ind.features["crowding_distance"], m[2], m[3]))
+    return None
+
+
+def eps_run_request(rr):
+    cfg, p, gens = rr["cfg"], rr["p"], rr["gens"]
+    N, G = cfg["N"], cfg["G"]
+    specs = ["7::"] * (N + N * G)
+    for i, o in enumerate(rr["init"][:N]):
+        specs[i] = spec_of(rr["by"], o)
+    picks_of = {id(o): pk for o, pk in rr["accepts"]}
+    steps = []
+    for it, rec in enumerate(gens):
+        for j, o in enumerate(rec["offspring"][:N]):
+            k = N + N * it + j
+            if k < len(specs):
+                specs[k] = spec_of(rr["by"], o)
+        steps.append("%s!%s" % (children_of(rec), ";".join("%d,%d" % tuple(picks_of.get(id(o), (0, 0))) for o in rec["offspring"])))
+    eps = rr["a"].options["epsilons"]
+    eps = list(eps) if hasattr(eps, "__getitem__") else [eps]
+    return "c09.epsrun %d|%d|%s|%s|%s|%s|%s|%s" % (N, G, signs_of(p), rvec(eps), rr["table"], "#".join(specs),
+                                                    ";".join(rvec(v) for v in rr["init_vecs"]), "@".join(steps))
+
+
+def check_eps_run_answer(rr, ans):
+    cfg, p = rr["cfg"], rr["p"]
+    head = "EpsMOEA %s: " % (cfg,)
+    if not ans.startswith("ok"):
+        return ("eps-" + ans.split()[0], head + "the real run completed, the composed model (epsMoeaRun) answers %r" % ans)
+    f = ans[2:].split("|")
+    evals, calls = int(f[0]), int(f[1])
+    real_ok = sum(1 for c in p.calls if c[2] == "o")
+    if evals != real_ok or calls != len(p.calls):
+        return ("eps-evals", head + "%d successful / %d objective calls, the model run makes %d / %d (budget N*(G+1) = %d)" % (
+            real_ok, len(p.calls), evals, calls, cfg["N"] * (cfg["G"] + 1)))
+    recs = [t.split(":") for t in f[2].split(";")] if f[2] else []
+    if len(recs) != len(p.individuals):
+        return ("eps-recorded", head + "%d designs were recorded, the model run records %d" % (len(p.individuals), len(recs)))
+    for k, (ind, m) in enumerate(zip(p.individuals, recs)):
+        if str(ind.population_id) != m[0] or rvec(ind.vector) != m[1]:
+            return ("eps-record", head + "recorded design #%d is %r with generation tag %r, the model run records %r with tag %s" % (
+                k, list(ind.vector), ind.population_id, [float(Fr(t)) for t in m[1].split(",")], m[0]))
+    pop = rr["pop"] if rr["pop"] is not None else []
+    mpop = f[3].split(";") if f[3] else []
+    if [rvec(i.vector) for i in pop] != mpop and cfg["G"] > 0:
+        return ("eps-population", head + "the working population ends as %r (size %d), the model's acceptance steps leave %d members: %r" % (
+            [list(i.vector) for i in pop], len(pop), len(mpop), [[float(Fr(t)) for t in r.split(",")] for r in mpop]))
+    arch = sorted(tuple(float(t) for t in i.costs_signed[:-1]) for i in rr["a"].archive._contents)
+    march = sorted(tuple(float(Fr(t)) for t in r.split(",")) for r in f[4].split(";")) if f[4] else []
+    if len(arch) != len(march) or any(len(a) != len(b) or not all(close(x, y) for x, y in zip(a, b)) for a, b in zip(arch, march)):
+        return ("eps-archive", head + "the archive ends with signed costs %r, the model's archive with %r" % (arch, march))
+    return None
+
+
+def step_cfgs(ctx):
+    rng = ctx.rng
+    n2 = 22 if ctx.quick else 260
+    ne = 8 if ctx.quick else 90
+    out = []
+    for k in range(n2 + ne):
+        algo = "nsga2" if k < n2 else "epsmoea"
+        out.append({"algo": algo, "N": rng.choice([2, 3, 4, 5, 8] if ctx.quick else [2, 3, 4, 5, 8, 13]),
+                    "G": rng.choice([1, 2, 3, 4] if algo == "nsga2" else [1, 2, 3]),
+                    "nparams": rng.randint(1, 3), "nobj": rng.choice([1, 2, 2, 3]),
+                    "kind": rng.choice(["smooth", "smooth", "plateau", "constrained"]),
+                    "fail_p": rng.choice([0, 0, 0.15, 0.3]), "lowvar": rng.random() < 0.3, "seed": rng.randrange(10 ** 6)})
+    return out
+
+
+def record_or_skip(ctx, cfg):
+    try:
+        rr = record_run(cfg)
+    except RuntimeError as e:
+        if cfg["fail_p"] and "failures" in str(e):
+            ctx.count("steps_run_aborted_by_5_failures")
+            return None
+        raise
+    prepare(rr)
+    return rr
+
+
+def check_recorded(ctx, recs):
+    """Replay recorded runs through the Lean model.  Returns the first failure (key, what, cfg) or None."""
+    # pass 1: every NSGA-II iteration with the provisional set() oracle
+    reqs = []
+    for rr in recs:
+        rr["orders"], rr["bad"] = {}, None
+        if rr["cfg"]["algo"] != "nsga2":
+            continue
+        for it in range(len(rr["gens"])):
+            line, pos, surv, err = nsga2_step_request(rr, it)
+            if err:
+                return err + (rr["cfg"],)
+            reqs.append((rr, it, line, pos, surv))
+    answers = ctx.lean([q[2] for q in reqs])
+    retry = []
+    for (rr, it, line, pos, surv), ans in zip(reqs, answers):
+        res = check_step_answer(rr, it, ans, pos, surv, final=False)
+        if res is not None and res[0] == "retry":
+            line2, _, _, _ = nsga2_step_request(rr, it, order=res[1])
+            retry.append((rr, it, line2, pos, surv))
+            rr["orders"][it] = res[1]
+            ctx.count("steps_oracle_rebuilt_from_model_keys")
+            continue
+        if res is not None:
+            return res + (rr["cfg"],)
+        rr["orders"][it] = [int(t) for t in line.rsplit("|", 1)[1].split(",")]
+        register_step(ctx, rr, it, pos, ans)
+    # pass 2: rebuilt oracles, then whole runs
+    runs = []
+    for rr in recs:
+        if rr["cfg"]["algo"] == "nsga2":
+            runs.append((rr, nsga2_run_request(rr, rr["orders"])))
+        else:
+            runs.append((rr, eps_run_request(rr)))
+    answers = ctx.lean([q[2] for q in retry] + [q[1] for q in runs])
+    for (rr, it, line, pos, surv), ans in zip(retry, answers):
+        res = check_step_answer(rr, it, ans, pos, surv, final=True)
+        if res is not None and res[0] == "near-tie":
+            ctx.count("steps_floating_point_near_tie_at_the_cut")
+            rr["bad"] = "near-tie"
+            continue
+        if res is not None:
+            return res + (rr["cfg"],)
+        register_step(ctx, rr, it, pos, ans)
+    for (rr, line), ans in zip(runs, answers[len(retry):]):
+        cfg = rr["cfg"]
+        if rr["bad"]:
+            continue
+        res = check_nsga2_run_answer(rr, ans) if cfg["algo"] == "nsga2" else check_eps_run_answer(rr, ans)
+        if res is not None:
+            return res + (cfg,)
+        faults = sum(1 for c in rr["p"].calls if c[2] != "o")
+        ctx.case(("steps-run", tuple(sorted(cfg.items()))), nontrivial=(cfg["G"] >= 2 or faults > 0),
+                 sample={"replayed_run": cfg, "objective_calls": len(rr["p"].calls), "failed_calls": faults,
+                         "recorded": len(rr["p"].individuals)})
+        ctx.count("steps_run_" + cfg["algo"])
+        ctx.count("steps_run_kind_" + cfg["kind"])
+        ctx.count("steps_failed_calls", faults)
+        if cfg["algo"] != "nsga2":
+            ctx.count("steps_epsmoea_acceptance_steps", len(rr["accepts"]))
+    return None
+
+
+def register_step(ctx, rr, it, pos, ans):
+    rec = rr["gens"][it]
+    n_off = len(rec["offspring"])
+    merged = [tuple(o.vector) for o in rec["offspring"]] + [tuple(pr.vector) for pr in rec["parents"]]
+    dup = len(set(merged)) < len(merged)
+    fronts = ans[2:].split("|")[1].split(",")
+    ctx.case(("steps-it", tuple(sorted(rr["cfg"].items())), it), nontrivial=True)
+    ctx.count("steps_iterations")
+    ctx.count("steps_survivors_offspring", sum(1 for j in pos if j < n_off))
+    ctx.count("steps_survivors_parent_copies", sum(1 for j in pos if j >= n_off))
+    if dup:
+        ctx.count("steps_iterations_with_equal_designs_in_merged_population")
+    if len(set(fronts)) > 1:
+        ctx.count("steps_iterations_with_several_fronts")
+    if len(rec["children"]) >= 2 and len(rec["children"]) % 2 == 0:
+        ctx.count("steps_children_observed_at_mutator")
+        if len(rec["children"]) > 2 * ((n_off + 1) // 2):
+            ctx.count("steps_iterations_where_generate_rejected_children")
+
+
+def stream_steps(ctx):
+    recs = []
+    for cfg in step_cfgs(ctx):
+        rr = record_or_skip(ctx, cfg)
+        if rr is not None:
+            recs.append(rr)
+    err = check_recorded(ctx, recs)
+    if err is not None:
+        key, what, cfg = err
+        ctx.fail(key, what, {"op": "steps", "cfg": cfg, "error": what})
+
+
 def run(ctx):
     rng = ctx.rng
     ctx.rule = ("real runs over a grid of (algorithm, N, G, dimension, objectives, fault probability); scripted generate "
@@ -238,6 +741,10 @@ def run(ctx):
                 "non-trivial = G >= 2 or injected faults (runs), a rejected duplicate (generate), a dominated/dominating "
                 "offspring (accept); distinct = distinct configuration + seed / request line")
     ctx.assumptions += ["PSOGA is not covered (its swarm grows by two per generation; not claimed by the statement)"]
+    only = os.environ.get("C09_STREAMS", "")      # debugging aid: "steps" runs the step-by-step replay stream alone
+    if only == "steps":
+        stream_steps(ctx)
+        return
     # --- runs
     n_runs = 70 if ctx.quick else 600
     runs, lines = [], []
@@ -270,6 +777,9 @@ def run(ctx):
         if err:
             ctx.fail("run-bookkeeping", err + " (config %r)" % cfg, {"op": "run", "cfg": cfg, "error": err})
             break
+    # --- step-by-step replay through the composed run model
+    if not ctx.failures:
+        stream_steps(ctx)
     # --- generate
     n_gen = 400 if ctx.quick else 5000
     glines, gobs, gcases = [], [], []
@@ -354,5 +864,13 @@ def replay(ctx, rp):
         obs = scripted_generate(ctx, rng, c["N"], [tuple(p) for p in c["pairs"]])
         print("offspring:", obs, " expected exactly", c["N"], "pairwise different designs:", c["model"])
         return obs != "dry" and len(obs) == c["N"] and len({tuple(r) for r in obs}) == len(obs) and mat([[int(v) for v in r] for r in obs]) == c["model"]
+    if c.get("op") == "steps":
+        rr = record_or_skip(ctx, c["cfg"])
+        if rr is None:
+            print("the run was aborted by five consecutive failures (allowed by C06)")
+            return True
+        err = check_recorded(ctx, [rr])
+        print(err[1] if err else "the recorded run is reproduced step by step by the composed model")
+        return err is None
     print(rp.get("what"))
     return False
